@@ -525,6 +525,40 @@ func c04Exec(f []string) (ans string, alloc uint64) {
 		var err error
 		alloc = c04Measure(func() { _, err = c2.VerifC04ReadPacket(conn, w, t) })
 		return c04Cls(err), alloc
+	case "rpseq":
+		// "the server keeps serving": after a connection whose bytes were rejected, well-formed packets
+		// through the same stack are still read, one after the other, each with its own contents
+		st, _ := strconv.Atoi(f[1])
+		w, t := c04Stack(st)
+		conn := &c04Conn{in: PieceReader{P: [][]byte{c04Hex(f[2])}}}
+		var err error
+		alloc = c04Measure(func() { _, err = c2.VerifC04ReadPacket(conn, w, t) })
+		first := c04Cls(err)
+		good := 0
+		why := ""
+		for k := 0; k < 6 && why == ""; k++ {
+			var id device.ID
+			id[0], id[5] = 3, byte(k+1)
+			n := &com.Packet{ID: uint8(0x20 + k), Job: uint16(100 + k), Device: id}
+			pay := bytes.Repeat([]byte{byte(0x41 + k)}, 10+37*k)
+			n.Write(pay)
+			cw := &c04Conn{}
+			if e := c2.VerifC04WritePacket(cw, w, t, n); e != nil {
+				why = "write:" + e.Error()
+				break
+			}
+			cr := &c04Conn{in: PieceReader{P: [][]byte{append([]byte(nil), cw.out.Bytes()...)}}}
+			g, e := c2.VerifC04ReadPacket(cr, w, t)
+			switch {
+			case e != nil:
+				why = "read:" + e.Error()
+			case g.ID != uint8(0x20+k) || g.Job != uint16(100+k) || g.Device != id || !bytes.Equal(g.Payload(), pay):
+				why = "differs"
+			default:
+				good++
+			}
+		}
+		return fmt.Sprintf("%s after=%d/6 %s", first, good, strings.ReplaceAll(why, " ", "_")), alloc
 	case "handle":
 		st, _ := strconv.Atoi(f[1])
 		w, t := c04Stack(st)
@@ -716,7 +750,13 @@ func c04Exec(f []string) (ans string, alloc uint64) {
 		var err error
 		var subs map[uint32]bool
 		alloc = c04Measure(func() { subs, _, err = c2.VerifC04Resolve(srv, h, nil, tags, o) })
-		return fmt.Sprintf("%s subs=%d ev=%d", c04Cls(err), len(subs), len(srv.Events)), alloc
+		own := 0
+		for k := range subs {
+			if cl := srv.Clients[k]; cl != nil && cl.ID == id {
+				own = 1 // the connection's own client registered as its sub-client
+			}
+		}
+		return fmt.Sprintf("%s subs=%d ev=%d own=%d", c04Cls(err), len(subs), len(srv.Events), own), alloc
 	case "json":
 		in := c04Hex(f[1])
 		s := c2.VerifC12NewServer()
